@@ -1186,6 +1186,14 @@ fn regressions(ctx: &mut Ctx) {
 }
 
 pub fn run(ctx: &mut Ctx) {
+    if ctx.slow() {
+        // Miri slice: the regression witnesses plus a few random programs per shard
+        // (the evaluator's ArrayVec-backed stacks are the unsafe code being interpreted)
+        regressions(ctx);
+        witnesses(ctx);
+        random_programs(ctx);
+        return;
+    }
     regressions(ctx);
     witnesses(ctx);
     decode_catalogue(ctx);
